@@ -158,8 +158,17 @@ def impl(case):
     for isf, cn, n, dsc in queries:
         x = d.get_encoded_field_descriptor(cn, n, dsc) if isf else d.get_encoded_method_descriptor(cn, n, dsc)
         answers.append(None if x is None else member_row(x, -1 if isf else x.get_code_off()))
+    # the same lookups again, in the reverse order and once more forwards: an answer must not depend on what was asked before
+    again = []
+    for rnd in (list(reversed(queries)), list(queries)):
+        row = []
+        for isf, cn, n, dsc in rnd:
+            x = d.get_encoded_field_descriptor(cn, n, dsc) if isf else d.get_encoded_method_descriptor(cn, n, dsc)
+            row.append(None if x is None else member_row(x, -1 if isf else x.get_code_off()))
+        again.append(row)
+    again[0].reverse()
     byname = [[s2l(c["name"]), (lambda k: None if k is None else s2l(k.get_name()))(d.get_class(c["name"]))] for c in model["classes"]]
-    return {"classes": classes, "answers": answers, "extra": extra, "byname": byname, "raw": raw,
+    return {"classes": classes, "answers": answers, "extra": extra, "byname": byname, "raw": raw, "repeat_same": again[0] == answers and again[1] == answers,
             "source_names": [None if c.get_source_file_idx() == NO_INDEX else d.get_class_manager().get_string(c.get_source_file_idx())
                              for c in d.get_classes()]}
 
@@ -176,6 +185,8 @@ def oracle(case, res):
     raw, b = dexgen.build(model)
     if len(res["classes"]) != len(model["classes"]):
         return "%d classes parsed, %d declared" % (len(res["classes"]), len(model["classes"]))
+    if not res.get("repeat_same", True):
+        return "a field or method lookup by descriptor gives another answer when it is asked again on the same DEX object"
     for c, got, ex, src in zip(model["classes"], res["classes"], res["extra"], res["source_names"]):
         name = c["name"]
         if got[0] != s2l(name):
